@@ -62,11 +62,19 @@ func (c *decoratorController) callHook(
 		}
 	}
 
+	// Drop null entries: they carry no desired state and would be
+	// dereferenced when the desired attachments are indexed.
+	attachments := response.Attachments[:0]
 	for _, child := range response.Attachments {
-		if child != nil && child.GetNamespace() == "" {
+		if child == nil {
+			continue
+		}
+		if child.GetNamespace() == "" {
 			child.SetNamespace(parent.GetNamespace())
 		}
+		attachments = append(attachments, child)
 	}
+	response.Attachments = attachments
 
 	return &response, nil
 }
